@@ -32,13 +32,15 @@ let bad () = raise (Bad "arity")
 
 let () =
   register "gg_left_regular" (function [l; r; d; s] -> gg_of_res gg_of_gs (gg_left_regular (to_z l) (to_z r) (to_z d) (to_zl s)) | _ -> bad ());
-  register "gg_m_edges" (function [spec; l; r; m; s] -> gg_of_res gg_of_gs (gg_m_edges (to_bool spec) (to_z l) (to_z r) (to_z m) (to_zl s)) | _ -> bad ());
+  (* the boolean of gg_m_edges / gg_random_regular / gg_obtain: true = the current code, false = the code as found;
+     the boolean of gg_shift: true = the code as found (sort in place) *)
+  register "gg_m_edges" (function [spec; l; r; m; s] -> gg_of_res gg_of_gs (gg_m_edges_gen (to_bool spec) (to_z l) (to_z r) (to_z m) (to_zl s)) | _ -> bad ());
   register "gg_random_regular" (function [rep; fuel; l; r; d; s] ->
-      gg_of_res gg_of_gs (gg_random_regular (to_bool rep) (to_nat fuel) (to_z l) (to_z r) (to_z d) (to_zl s)) | _ -> bad ());
+      gg_of_res gg_of_gs (gg_random_regular_gen (to_bool rep) (to_nat fuel) (to_z l) (to_z r) (to_z d) (to_zl s)) | _ -> bad ());
   register "gg_bip_random" (function [l; r; pok; s] -> gg_of_res gg_of_gs (gg_bip_random (to_z l) (to_z r) (to_bool pok) (to_zl s)) | _ -> bad ());
   register "gg_tnp" (function [t; n; s] -> gg_of_res gg_of_gs (gg_tnp (to_z t) (to_z n) (to_zl s)) | _ -> bad ());
   register "gg_shift" (function [inplace; n; m; pat] ->
-      gg_of_res (fun (g, p) -> L [gg_of_graph g; of_zl p]) (gg_shift (to_bool inplace) (to_z n) (to_z m) (to_zl pat)) | _ -> bad ());
+      gg_of_res (fun (g, p) -> L [gg_of_graph g; of_zl p]) (gg_shift_gen (to_bool inplace) (to_z n) (to_z m) (to_zl pat)) | _ -> bad ());
   register "gg_complete_bipartite" (function [l; r] -> gg_of_gres (gg_complete_bipartite (to_z l) (to_z r)) | _ -> bad ());
   register "gg_empty_bipartite" (function [l; r] -> gg_of_gres (gg_empty_bipartite (to_z l) (to_z r)) | _ -> bad ());
   register "gg_complete_simple" (function [n] -> gg_of_gres (gg_complete_simple (to_z n)) | _ -> bad ());
@@ -58,9 +60,9 @@ let () =
   register "gg_guard" (function [name; args; pok] ->
       let a = to_zl args and p = to_bool pok in
       of_bool (match to_str name with
-          | "gnd" -> gg_guard_gnd a | "gnd-spec" -> gg_guard_gnd_spec a | "gnp" -> gg_guard_gnp a p | "gnm" -> gg_guard_gnm a
+          | "gnd" -> gg_guard_gnd a | "gnd-as-found" -> gg_guard_gnd_as_found a | "gnp" -> gg_guard_gnp a p | "gnm" -> gg_guard_gnm a
           | "complete-simple" -> gg_guard_complete_simple a | "empty-simple" -> gg_guard_empty_simple a
-          | "grid" | "torus" -> gg_guard_grid a | "grid-spec" -> gg_guard_grid_spec a | "glrp" -> gg_guard_glrp a p | "glrm" -> gg_guard_glrm a
+          | "grid" | "torus" -> gg_guard_grid a | "grid-as-found" -> gg_guard_grid_as_found a | "glrp" -> gg_guard_glrp a p | "glrm" -> gg_guard_glrm a
           | "glrd" -> gg_guard_glrd a | "regular" -> gg_guard_regular a | "shift" -> gg_guard_shift a
           | "complete-bipartite" | "empty-bipartite" -> gg_guard_two_positive a
           | "path" | "tree" | "pyramid" | "plantclique" | "addedges" | "splitedges" -> gg_guard_one_nonneg a
@@ -72,9 +74,9 @@ let () =
       let plain r = gg_of_res gg_of_gs (match r with GGOk g -> GGOk (g, st) | GGRaise e -> GGRaise e | GGZeroDiv -> GGZeroDiv
                                                  | GGBadOracle -> GGBadOracle | GGNoFuel -> GGNoFuel) in
       (match to_str name with
-       | "glrm" -> gg_of_res gg_of_gs (gg_obtain_glrm fl a st)
+       | "glrm" -> gg_of_res gg_of_gs (gg_obtain_glrm_gen fl a st)
        | "glrd" -> gg_of_res gg_of_gs (gg_obtain_glrd a st)
-       | "regular" -> gg_of_res gg_of_gs (gg_obtain_regular fl (to_nat fuel) a st)
+       | "regular" -> gg_of_res gg_of_gs (gg_obtain_regular_gen fl (to_nat fuel) a st)
        | "shift" -> plain (gg_obtain_shift a)
        | "complete-bipartite" -> plain (gg_obtain_complete_bipartite a)
        | "empty-bipartite" -> plain (gg_obtain_empty_bipartite a)
